@@ -26,3 +26,31 @@ Theorem c11_no_damping : forall p d tr s l s',
   run sys label step (init p d) tr = Some s -> step s l = Some s' -> damp_ok s l s' = true.
 Proof. exact damping_only_by_protocol_error. Qed.
 Print Assumptions c11_no_damping.
+
+(* ---- timed runs of the outbound FSM's Idle / Connect / Active states (Dial.v), any length ---- *)
+From Coq Require Import List NArith. Import ListNotations.
+From Verif Require Import Dial DialProofs.
+
+(* every attempt made from Idle is at least the idle-hold time after the previous attempt made from Idle;
+   every attempt made on connect-retry expiry at least the connect-retry time after the previous attempt *)
+Theorem c11_dial_pacing : forall cf t0 ins s,
+  drun cf (dinit t0) ins = Some s -> spaced cf (ds_dials s).
+Proof. exact dial_pacing. Qed.
+Print Assumptions c11_dial_pacing.
+
+(* while every attempt is refused (none is made on connect-retry expiry) successive attempts are at least
+   the idle-hold time apart: never back-to-back redialling *)
+Theorem c11_refused_attempts_spaced : forall cf l,
+  spaced cf l -> forallb (fun x => snd x) l = true -> consecutive_gap (dc_idle_hold cf) l.
+Proof. exact refused_attempts_spaced. Qed.
+Print Assumptions c11_refused_attempts_spaced.
+
+(* non-vacuity: idle-hold 5 s, connect-retry 2 s: first attempt at once, refused; the next cannot be made
+   at 4.9 s and is made at 5 s; a stalled attempt is abandoned and re-made when connect-retry expires *)
+Local Open Scope N_scope.
+Example c11_dial_example :
+  let cf := mkDC 5000 2000 in
+  drun cf (dinit 0) [(0, DIdleFire); (10, DDialErr); (4890, DIdleFire)] = None
+  /\ (exists s, drun cf (dinit 0) [(0, DIdleFire); (10, DDialErr); (4990, DIdleFire); (2000, DRetryFireErr)] = Some s
+                /\ map fst (ds_dials s) = [7000; 5000; 0]).
+Proof. vm_compute. split; [reflexivity|eexists; split; reflexivity]. Qed.
